@@ -252,6 +252,8 @@ class CompRel:
         if len(classes) != 1:
             return None, None
         cls = next(iter(classes))
+        if hasattr(self.facts, 'init_understood') and not self.facts.init_understood(cls):
+            raise AnalysisError('{}: how __init__ of {} fills the attributes of the item is not understood'.format(mnemonic, cls))
         attrs = [a for a, _ in self.facts.full_attr_order(cls) if a not in ('line', 'name', 'is_auipc_jump', 'aq', 'rl')]
         return cls, attrs
 
